@@ -98,7 +98,7 @@ type baseAttr struct {
 // must agree with BaseAttr of spec/Spend.tla (the behaviours carry the
 // eligible sets, so a disagreement shows up as a harness error, not a verdict)
 var baseAttrs = map[int]baseAttr{
-	1: {0, "bip84", 8, false}, 2: {0, "bip84", 4, false}, 3: {0, "bip86", 2, false},
+	1: {0, "bip84", 8, false}, 2: {0, "bip86", 4, false}, 3: {0, "bip86", 2, false},
 	4: {1, "bip84", 1, false}, 5: {0, "bip84", 16, true}, 6: {0, "bip86", 32, false},
 	7: {0, "bip49", 64, false}, 8: {0, "bip44", 128, false},
 }
